@@ -1,4 +1,440 @@
+//! C12 — bit and coefficient decompositions admit only the canonical witness.
+//!
+//! For every decomposition site × value of an alphabet, EVERY alternative witness of the stated
+//! classes that satisfies the recomposition identity is substituted for the hint output
+//! (the hint executor inside a clone of `Circuit::ops` is replaced), the circuit is run by the
+//! real runner, proven and verified by the real prover/verifier. The decomposed digits are
+//! made observable through public outputs (y_i = digit_i * k), so an accepted proof with a
+//! non-canonical witness is an accepted false public statement.
+//!   classes:  bits of x + k·p (every k with x + k·p < 2^n);
+//!             digit i += 2, digit i+1 -= 1 (non-boolean digits, identity preserved);
+//!             coefficient i += X^(j-i), coefficient j -= 1 (mass moved between extension
+//!             coefficients: coefficient i is no longer a base-field element).
+//! Verdict: violation ⇔ accepted ∧ witness not canonical.
+
+use std::sync::atomic::{AtomicU64, Ordering};
+
+use p3_baby_bear::BabyBear;
+use p3_batch_stark::ProverData;
+use p3_circuit::ops::{HintExecutor, Op, generate_recompose_trace};
+use p3_circuit::{Circuit, CircuitBuilder, CircuitError, ExprId, WitnessId};
+use p3_circuit_prover::batch_stark_prover::{BatchStarkProver, CircuitProverData, TablePacking, recompose_air_builders};
+use p3_circuit_prover::common::{NpoPreprocessor, get_airs_and_degrees_with_prep};
+use p3_circuit_prover::config::{BabyBearConfig, KoalaBearConfig};
+use p3_circuit_prover::{ConstraintProfile, RecomposePreprocessor};
+use p3_field::extension::BinomialExtensionField;
+use p3_field::{BasedVectorSpace, Field, PrimeCharacteristicRing, PrimeField64};
+use p3_koala_bear::KoalaBear;
+use vpcore::rayon::prelude::*;
+use vpcore::serde_json::{Value, json};
+use vpcore::{Ctx, Histo, Report, finish, quiet_catch};
+
+type BB = BabyBear;
+type KB = KoalaBear;
+type KB4 = BinomialExtensionField<KB, 4>;
+type BB4 = BinomialExtensionField<BB, 4>;
+const P_BB: u64 = 0x78000001;
+
+/// Hint executor that writes fixed values (the prover's freedom: any hint output).
+#[derive(Debug, Clone)]
+struct FixedHint<F: Field>(Vec<F>);
+impl<F: Field> HintExecutor<F> for FixedHint<F> {
+    fn execute(&self, _inputs: &[WitnessId], outputs: &[WitnessId], witness: &mut [Option<F>]) -> Result<(), CircuitError> {
+        for (o, v) in outputs.iter().zip(self.0.iter()) {
+            witness[o.0 as usize] = Some(*v);
+        }
+        Ok(())
+    }
+    fn boxed(&self) -> Box<dyn HintExecutor<F>> {
+        Box::new(self.clone())
+    }
+}
+
+/// Replace the `k`-th hint op of the circuit by fixed outputs.
+fn with_hint<F: Field>(c: &Circuit<F>, k: usize, outs: Vec<F>) -> Option<Circuit<F>> {
+    let mut c2 = c.clone();
+    let mut seen = 0;
+    for op in c2.ops.iter_mut() {
+        if let Op::Hint { outputs, executor, .. } = op {
+            if seen == k {
+                if outputs.len() != outs.len() {
+                    return None;
+                }
+                *executor = Box::new(FixedHint(outs));
+                return Some(c2);
+            }
+            seen += 1;
+        }
+    }
+    None
+}
+
+#[derive(Debug, Clone, PartialEq)]
+enum Outcome {
+    RunRejected(String),
+    Rejected(String),
+    Accepted,
+    Panic(String),
+}
+
+fn prove_bb<EF, const D: usize>(circuit: &Circuit<EF>, pubs: &[EF]) -> Outcome
+where
+    EF: Field + p3_field::ExtensionField<BB> + BasedVectorSpace<BB> + p3_circuit_prover::field_params::ExtractBinomialW<BB>,
+{
+    let mut r = circuit.runner();
+    if let Err(e) = r.set_public_inputs(pubs) {
+        return Outcome::RunRejected(format!("{e:?}"));
+    }
+    let traces = match r.run() {
+        Ok(t) => t,
+        Err(e) => return Outcome::RunRejected(format!("{e:?}")),
+    };
+    match quiet_catch(|| {
+        let cfg = vpe1::accept::fast_baby_bear();
+        let packing = TablePacking::default();
+        let (ad, prim, np) = get_airs_and_degrees_with_prep::<BabyBearConfig, _, D>(circuit, &packing, &[], &[], ConstraintProfile::Standard).map_err(|e| format!("prep:{e:?}"))?;
+        let (airs, degs): (Vec<_>, Vec<usize>) = ad.into_iter().unzip();
+        let pd = ProverData::from_airs_and_degrees(&cfg, &airs, &degs);
+        let cpd = CircuitProverData::new(pd, prim, np);
+        let prover = BatchStarkProver::new(cfg);
+        let proof = prover.prove_all_tables(&traces, &cpd).map_err(|e| format!("prove:{e:?}"))?;
+        prover.verify_all_tables::<EF>(&proof).map_err(|e| format!("verify:{e:?}"))
+    }) {
+        Ok(Ok(())) => Outcome::Accepted,
+        Ok(Err(e)) => Outcome::Rejected(e),
+        Err(p) => Outcome::Panic(p),
+    }
+}
+
+/// KoalaBear D=4 with the recompose table(s) registered.
+fn prove_kb_recompose(circuit: &Circuit<KB4>, pubs: &[KB4], split: bool, forge: Option<&dyn Fn(&mut p3_circuit::Traces<KB4>)>) -> Outcome {
+    let mut r = circuit.runner();
+    if let Err(e) = r.set_public_inputs(pubs) {
+        return Outcome::RunRejected(format!("{e:?}"));
+    }
+    let mut traces = match r.run() {
+        Ok(t) => t,
+        Err(e) => return Outcome::RunRejected(format!("{e:?}")),
+    };
+    if let Some(f) = forge {
+        f(&mut traces);
+    }
+    match quiet_catch(|| {
+        let cfg = vpe1::accept::fast_koala_bear();
+        let packing = TablePacking::default();
+        let npo_prep: Vec<Box<dyn NpoPreprocessor<KB>>> = vec![Box::new(RecomposePreprocessor::new(split))];
+        let air_builders = recompose_air_builders::<KoalaBearConfig, 4>(1, split);
+        let (ad, prim, np) = get_airs_and_degrees_with_prep::<KoalaBearConfig, _, 4>(circuit, &packing, &npo_prep, &air_builders, ConstraintProfile::Standard).map_err(|e| format!("prep:{e:?}"))?;
+        let (airs, degs): (Vec<_>, Vec<usize>) = ad.into_iter().unzip();
+        let pd = ProverData::from_airs_and_degrees(&cfg, &airs, &degs);
+        let cpd = CircuitProverData::new(pd, prim, np);
+        let mut prover = BatchStarkProver::new(cfg);
+        prover.register_recompose_table::<4>(split);
+        let proof = prover.prove_all_tables(&traces, &cpd).map_err(|e| format!("prove:{e:?}"))?;
+        prover.verify_all_tables::<KB4>(&proof).map_err(|e| format!("verify:{e:?}"))
+    }) {
+        Ok(Ok(())) => Outcome::Accepted,
+        Ok(Err(e)) => Outcome::Rejected(e),
+        Err(p) => Outcome::Panic(p),
+    }
+}
+
+#[derive(Clone, Debug)]
+enum Work {
+    /// n, x, digits
+    Bits(usize, u64, Vec<u64>),
+    /// mode, x coefficients, alternative coefficient vectors (each an extension element)
+    Coeffs(&'static str, [u64; 4], Vec<[u64; 4]>),
+}
+
+struct Case {
+    site: String,
+    class: &'static str,
+    detail: String,
+    canonical: bool,
+    work: Work,
+}
+
+const K: u64 = 7; // multiplier making digits observable: y_i = digit_i * K
+
+fn bits_circuit(n: usize) -> Circuit<BB> {
+    let mut b = CircuitBuilder::<BB>::new();
+    let x = b.public_input();
+    let bits = b.decompose_to_bits::<BB>(x, n).unwrap();
+    let k = b.define_const(BB::from_u64(K));
+    let ys: Vec<ExprId> = (0..n).map(|_| b.public_input()).collect();
+    for i in 0..n {
+        let m = b.mul(bits[i], k);
+        b.connect(m, ys[i]);
+    }
+    b.build().unwrap()
+}
+
+/// decompose_to_bits over BabyBear (D=1): x public, y_i = b_i * K public.
+fn bits_cases(n: usize, xs: &[u64], out: &mut Vec<Case>) {
+    for &xv in xs {
+        if n < 64 && xv >> n != 0 {
+            continue; // no n-bit decomposition at all
+        }
+        let canon: Vec<u64> = (0..n).map(|i| (xv >> i) & 1).collect();
+        let mut alts: Vec<(&'static str, String, Vec<u64>, bool)> = vec![("canonical", "bits of x".into(), canon.clone(), true)];
+        let mut kk = 1u64;
+        while xv + kk * P_BB < (1u64 << n.min(63)) {
+            let v = xv + kk * P_BB;
+            alts.push(("bits_of_x_plus_kp", format!("k={kk}"), (0..n).map(|i| (v >> i) & 1).collect(), false));
+            kk += 1;
+        }
+        for i in 0..n.saturating_sub(1) {
+            let mut d = canon.clone();
+            d[i] += 2;
+            d[i + 1] = (d[i + 1] + P_BB - 1) % P_BB;
+            alts.push(("non_boolean_digits", format!("digit{i}+=2,digit{}-=1", i + 1), d, false));
+        }
+        for (class, detail, digits, canonical) in alts {
+            out.push(Case {
+                site: format!("decompose_to_bits(n={n})/babybear-d1"),
+                class,
+                detail: format!("x={xv} {detail}"),
+                canonical,
+                work: Work::Bits(n, xv, digits),
+            });
+        }
+    }
+}
+
+fn ext_from<F: Field, EF: BasedVectorSpace<F>>(c: &[F]) -> EF {
+    EF::from_basis_coefficients_slice(c).unwrap()
+}
+
+/// decompose_ext_to_base_coeffs: x public (extension), y_i = c_i * K public.
+/// mode: "alu" (no recompose table), "npo" (recompose table), "npo_coeff" (recompose/coeff links)
+fn coeff_cases(mode: &'static str, out: &mut Vec<Case>) {
+    let xs: Vec<[u64; 4]> = vec![[1, 2, 3, 4], [0, 0, 0, 0], [5, 0, 0, 7]];
+    for xv in xs {
+        let canon: Vec<[u64; 4]> = xv.iter().map(|v| [*v, 0, 0, 0]).collect();
+        let mut alts: Vec<(&'static str, String, Vec<[u64; 4]>, bool)> = vec![("canonical", "base coefficients".into(), canon.clone(), true)];
+        for i in 0..4usize {
+            for j in (i + 1)..4usize {
+                // c_i += X^(j-i), c_j -= 1   (sum c_k X^k unchanged); u64::MAX encodes -1
+                let mut c = canon.clone();
+                c[i][j - i] += 1;
+                c[j][0] = if c[j][0] == 0 { u64::MAX } else { c[j][0] - 1 };
+                alts.push(("mass_moved_between_coefficients", format!("c{i}+=X^{},c{j}-=1", j - i), c, false));
+            }
+        }
+        for (class, detail, cs, canonical) in alts {
+            out.push(Case {
+                site: format!("decompose_ext_to_base_coeffs/{mode}"),
+                class,
+                detail: format!("x={xv:?} {detail}"),
+                canonical,
+                work: Work::Coeffs(mode, xv, cs),
+            });
+        }
+    }
+}
+
+fn run_case(w: &Work) -> Outcome {
+    match w {
+        Work::Bits(n, xv, digits) => {
+            let c = bits_circuit(*n);
+            let d: Vec<BB> = digits.iter().map(|v| BB::from_u64(*v)).collect();
+            let mut pubs = vec![BB::from_u64(*xv)];
+            pubs.extend(d.iter().map(|x| *x * BB::from_u64(K)));
+            match with_hint(&c, 0, d) {
+                Some(c2) => prove_bb::<BB, 1>(&c2, &pubs),
+                None => Outcome::Panic("hint not found".into()),
+            }
+        }
+        Work::Coeffs(mode, xv, cs) => {
+            macro_rules! go {
+                ($F:ty, $EF:ty, $prove:expr, $enable:expr) => {{
+                    let mut b = CircuitBuilder::<$EF>::new();
+                    $enable(&mut b);
+                    let x = b.public_input();
+                    let coeffs = b.decompose_ext_to_base_coeffs::<$F>(x).unwrap();
+                    let k = b.define_const(<$EF>::from_u64(K));
+                    let ys: Vec<ExprId> = (0..4).map(|_| b.public_input()).collect();
+                    for i in 0..4 {
+                        let m = b.mul(coeffs[i], k);
+                        b.connect(m, ys[i]);
+                    }
+                    let circuit = b.build().unwrap();
+                    let f = |v: u64| if v == u64::MAX { <$F>::NEG_ONE } else { <$F>::from_u64(v) };
+                    let xe: $EF = ext_from::<$F, $EF>(&xv.iter().map(|v| f(*v)).collect::<Vec<_>>());
+                    let alt: Vec<$EF> = cs.iter().map(|c| ext_from::<$F, $EF>(&c.iter().map(|v| f(*v)).collect::<Vec<_>>())).collect();
+                    let mut pubs = vec![xe];
+                    pubs.extend(alt.iter().map(|d| *d * <$EF>::from_u64(K)));
+                    let slots: Vec<WitnessId> = coeffs.iter().map(|e| circuit.expr_to_widx[e]).collect();
+                    let yslots: Vec<WitnessId> = ys.iter().map(|e| circuit.expr_to_widx[e]).collect();
+                    let _ = (&slots, &yslots);
+                    match with_hint(&circuit, 0, alt.clone()) {
+                        Some(c2) => $prove(&c2, &pubs, &circuit, &slots, &yslots, &alt, xe),
+                        None => Outcome::Panic("hint not found".into()),
+                    }
+                }};
+            }
+            match *mode {
+                "alu" => go!(
+                    BB,
+                    BB4,
+                    |c: &Circuit<BB4>, p: &[BB4], _h: &Circuit<BB4>, _s: &[WitnessId], _y: &[WitnessId], _a: &[BB4], _x: BB4| prove_bb::<BB4, 4>(c, p),
+                    |_b: &mut CircuitBuilder<BB4>| {}
+                ),
+                m => {
+                    let split = m == "npo_coeff";
+                    go!(
+                        KB,
+                        KB4,
+                        |c: &Circuit<KB4>, p: &[KB4], honest: &Circuit<KB4>, slots: &[WitnessId], yslots: &[WitnessId], alt: &[KB4], xe: KB4| {
+                            // first the plain substitution (the recompose executor itself refuses
+                            // non-base coefficients: an honest-runner check)
+                            let direct = prove_kb_recompose(c, p, split, None);
+                            if !matches!(direct, Outcome::RunRejected(_)) {
+                                return direct;
+                            }
+                            // a malicious prover does not use the runner: take the honest traces
+                            // (canonical coefficients in the recompose row) and let every OTHER row
+                            // that mentions a coefficient slot carry the alternative value
+                            let canon_pubs: Vec<KB4> = {
+                                let base = <KB4 as BasedVectorSpace<KB>>::as_basis_coefficients_slice(&xe).to_vec();
+                                let mut v = vec![xe];
+                                v.extend(base.iter().map(|b| KB4::from(*b) * KB4::from_u64(K)));
+                                v
+                            };
+                            if std::env::var("C12_DEBUG").is_ok() {
+                                for op in &honest.ops {
+                                    eprintln!("  op {op:?}");
+                                }
+                                eprintln!("  coeff slots {slots:?} y slots {yslots:?}");
+                            }
+                            let forge = |t: &mut p3_circuit::Traces<KB4>| {
+                                if std::env::var("C12_DEBUG").is_ok() {
+                                    eprintln!("  npo traces: {:?}", t.non_primitive_traces.keys().collect::<Vec<_>>());
+                                    for r in 0..t.alu_trace.values.len() {
+                                        eprintln!("  alu {r} {:?} {:?} {:?}", t.alu_trace.op_kind[r], t.alu_trace.indices[r], t.alu_trace.values[r]);
+                                    }
+                                }
+                                for r in 0..t.alu_trace.values.len() {
+                                    let idx = t.alu_trace.indices[r];
+                                    let mut touched = false;
+                                    for port in 0..3 {
+                                        if let Some(i) = slots.iter().position(|s| *s == idx[port]) {
+                                            t.alu_trace.values[r][port] = alt[i];
+                                            touched = true;
+                                        }
+                                    }
+                                    if touched && t.alu_trace.op_kind[r] == p3_circuit::ops::AluOpKind::Mul {
+                                        let v = t.alu_trace.values[r];
+                                        t.alu_trace.values[r][3] = v[0] * v[1];
+                                    }
+                                }
+                                // public outputs y_i: claim the alternative digits
+                                for (pos, w) in t.public_trace.index.clone().iter().enumerate() {
+                                    if let Some(i) = yslots.iter().position(|s| s == w) {
+                                        t.public_trace.values[pos] = alt[i] * KB4::from_u64(K);
+                                    }
+                                }
+                            };
+                            prove_kb_recompose(honest, &canon_pubs, split, Some(&forge))
+                        },
+                        |b: &mut CircuitBuilder<KB4>| {
+                            b.enable_recompose::<KB>(generate_recompose_trace::<KB, KB4>);
+                            if split {
+                                b.set_recompose_coeff_ctl_for_decompose_links(true);
+                            }
+                        }
+                    )
+                }
+            }
+        }
+    }
+}
+
 fn main() {
-    eprintln!("MACHINERY-ERROR: check c12 not built yet");
-    std::process::exit(2);
+    vpcore::install_quiet_panic_hook();
+    let ctx = Ctx::from_args("C12", "fault_enumeration");
+    let report = Report::new();
+    let histo = Histo::new();
+    let mut cases: Vec<Case> = vec![];
+    let ns: Vec<usize> = if ctx.quick() { vec![1, 2, 3, 8, 30, 31] } else { (1..=31).collect() };
+    let big = (1u64 << 27) - 2;
+    for n in ns {
+        let xs: Vec<u64> = vec![0, 1, 2, 5, big, (1u64 << n.min(40)) - 1, P_BB - 1];
+        let mut xs: Vec<u64> = xs.into_iter().filter(|x| *x < P_BB).collect();
+        xs.sort();
+        xs.dedup();
+        bits_cases(n, &xs, &mut cases);
+    }
+    for mode in ["alu", "npo", "npo_coeff"] {
+        coeff_cases(mode, &mut cases);
+    }
+    if let Some(f) = ctx.opt("site") {
+        cases.retain(|c| c.site.contains(f));
+    }
+    let total = cases.len();
+    let done = AtomicU64::new(0);
+    let reached = AtomicU64::new(0);
+    let samples: std::sync::Mutex<Vec<Value>> = std::sync::Mutex::new(vec![]);
+    cases.par_iter().for_each(|c| {
+        if ctx.used() > 0.93 {
+            return;
+        }
+        let o = run_case(&c.work);
+        done.fetch_add(1, Ordering::Relaxed);
+        let tag = match &o {
+            Outcome::Accepted => "accepted",
+            Outcome::Rejected(_) => "rejected_by_verifier",
+            Outcome::RunRejected(_) => "rejected_by_runner",
+            Outcome::Panic(_) => "panic",
+        };
+        histo.add(&format!("{}/{}/{}", c.site.split('(').next().unwrap_or(&c.site), c.class, tag));
+        if !c.canonical && !matches!(o, Outcome::RunRejected(_)) {
+            reached.fetch_add(1, Ordering::Relaxed);
+        }
+        let n_tag = c.site.clone();
+        match (&o, c.canonical) {
+            (Outcome::Accepted, false) => {
+                report.violation_sized(
+                    format!("noncanonical_accepted:{}:{}", n_tag, c.class),
+                    format!("{}: {} [{}] — proof with a non-canonical decomposition witness verifies", c.site, c.detail, c.class),
+                    json!({"site": c.site, "class": c.class, "detail": c.detail}),
+                    c.detail.len(),
+                );
+            }
+            (Outcome::Accepted, true) => {}
+            (other, true) => {
+                // the canonical witness must go through: otherwise the harness (or the repo) is off
+                report.violation(
+                    format!("canonical_rejected:{}", n_tag),
+                    format!("{}: {} canonical witness not accepted: {other:?}", c.site, c.detail),
+                    json!({"site": c.site, "class": c.class, "detail": c.detail}),
+                );
+            }
+            _ => {}
+        }
+        let mut s = samples.lock().unwrap();
+        if s.len() < 8 && !c.canonical {
+            s.push(json!({"site": c.site, "class": c.class, "detail": c.detail, "outcome": tag}));
+        }
+    });
+    let d = done.load(Ordering::Relaxed) as usize;
+    let cov = json!({
+        "evaluations": d,
+        "distinct_nontrivial": reached.load(Ordering::Relaxed),
+        "rule": "a case = (site, value, alternative witness); all alternatives of the three classes are enumerated for every value of the alphabet; non-trivial = non-canonical witness that the runner accepts (the recomposition identity holds) and therefore reaches prover+verifier",
+        "samples": *samples.lock().unwrap(),
+        "cases_planned": total,
+        "exhaustive": d == total,
+        "outcome_histogram(site/class/outcome)": histo.to_json(),
+    });
+    finish(
+        &ctx,
+        cov,
+        vec![
+            "STARK/LogUp soundness assumed: 'accepted' is the real verifier's answer on a real proof".into(),
+            "digits are made observable through public outputs y_i = digit_i * 7, so acceptance of a non-canonical witness is acceptance of a false public statement".into(),
+        ],
+        &report,
+    );
 }
